@@ -549,7 +549,7 @@ Section MergeProofs.
         apply class_filter_tag. exact G.
   Qed.
 
-  (** *** the statements about [kmerge] / [merge_sorted_runs] / [merge_all] *)
+  (** *** the statements about [kmerge] / [merge_sorted_runs_pre] / [merge_all_pre] *)
   Theorem kmerge_sorted_perm : forall runs, Forall P (concat runs) -> Forall sorted runs ->
     sorted (kmerge cmp runs) /\ Permutation (kmerge cmp runs) (concat runs).
   Proof.
@@ -600,9 +600,9 @@ Section MergeProofs.
     - cbn [concat] in HP. apply Forall_app in HP. inversion Hb; subst. apply IH; tauto.
   Qed.
 
-  (** merge_sorted_runs, all three branches *)
+  (** merge_sorted_runs_pre, all three branches *)
   Theorem merge_sorted_runs_spec : forall runs, Forall P (concat runs) -> Forall (fun r => sortedb cmp r = true) runs ->
-    sorted (merge_sorted_runs cmp runs) /\ Permutation (merge_sorted_runs cmp runs) (concat runs).
+    sorted (merge_sorted_runs_pre cmp runs) /\ Permutation (merge_sorted_runs_pre cmp runs) (concat runs).
   Proof.
     intros runs HP Hb.
     pose proof (runs_sorted runs HP Hb) as Hs.
@@ -613,7 +613,7 @@ Section MergeProofs.
   Qed.
 
   Theorem merge_sorted_runs_stable : forall runs, Forall P (concat runs) -> Forall (fun r => sortedb cmp r = true) runs ->
-    no_cross_ties runs -> merge_sorted_runs cmp runs = isort (concat runs).
+    no_cross_ties runs -> merge_sorted_runs_pre cmp runs = isort (concat runs).
   Proof.
     intros runs HP Hb Hn.
     pose proof (runs_sorted runs HP Hb) as Hs.
